@@ -588,6 +588,7 @@ class PolyCtx:
         self.atom_terms = []   # atom index -> Term
         self.memo = {}
         self.subst = {}        # atom index -> Poly (substitution applied when atom is created)
+        self.rmemo = {}
 
     def atom(self, t):
         i = self.atom_of.get(t.id)
@@ -629,6 +630,40 @@ class PolyCtx:
             memo[n.id] = p
         return memo[t.id]
 
+    def rat(self, t):
+        """rational normal form (num Poly, den Poly): divisions by non-constant terms are kept as denominators"""
+        if not isinstance(t, Term):
+            return Poly.const(t), Poly.const(1)
+        memo = self.rmemo
+        one = Poly.const(1)
+        for n in topo([t]):
+            if n.id in memo or n.sort != 'R':
+                continue
+
+            def g(x):
+                return memo[x.id] if isinstance(x, Term) else (Poly.const(x), one)
+
+            op = n.op
+            if op in ('fadd', 'fsub'):
+                (n1, d1), (n2, d2) = g(n.args[0]), g(n.args[1])
+                if d1.d == d2.d:
+                    r = ((n1 + n2) if op == 'fadd' else (n1 - n2), d1)
+                else:
+                    r = ((n1 * d2 + n2 * d1) if op == 'fadd' else (n1 * d2 - n2 * d1), d1 * d2)
+            elif op == 'fmul':
+                (n1, d1), (n2, d2) = g(n.args[0]), g(n.args[1])
+                r = (n1 * n2, d1 * d2)
+            elif op == 'fneg':
+                n1, d1 = g(n.args[0])
+                r = (-n1, d1)
+            elif op == 'fdiv':
+                (n1, d1), (n2, d2) = g(n.args[0]), g(n.args[1])
+                r = (n1 * d2, d1 * n2)
+            else:
+                r = (self.poly(n), one)
+            memo[n.id] = r
+        return memo[t.id]
+
     def reduce_squares(self, p, pairs):
         """pairs: list of (cos_atom_index, sin_atom_index): rewrite cos^2k -> (1 - sin^2)^k in every monomial"""
         cs = dict(pairs)
@@ -655,3 +690,41 @@ class PolyCtx:
                 changed = True
             p = out
         return p
+
+
+def rebuild(t, choose):
+    """rebuild the DAG of t; for every ite node choose(cond) may return True/False to select a branch (None keeps it)"""
+    if not isinstance(t, Term):
+        return t
+    memo = {}
+
+    def g(x):
+        return memo[x.id] if isinstance(x, Term) else x
+
+    for n in topo([t]):
+        op = n.op
+        a = [g(x) for x in n.args]
+        if op == 'ite':
+            c = choose(n.args[0])
+            if c is True:
+                r = a[1]
+            elif c is False:
+                r = a[2]
+            else:
+                r = ite(a[0], a[1], a[2], n.sort)
+        elif op == 'fadd':
+            r = fadd(a[0], a[1])
+        elif op == 'fsub':
+            r = fsub(a[0], a[1])
+        elif op == 'fmul':
+            r = fmul(a[0], a[1])
+        elif op == 'fdiv':
+            r = fdiv(a[0], a[1])
+        elif op == 'fneg':
+            r = fneg(a[0])
+        elif op == 'var':
+            r = n
+        else:
+            r = mk(op, a, n.sort, n.aux)
+        memo[n.id] = r
+    return memo[t.id]
